@@ -186,7 +186,7 @@ class Interp:
             "bin": PyFunc(bin, "bin"), "hex": PyFunc(hex, "hex"), "set": PyFunc(self._set, "set", True),
             "object": ClassRef("object"), "type": PyFunc(self._type, "type", True), "id": PyFunc(lambda o: id(o), "id", True), "slice": PyFunc(slice, "slice"), "Ellipsis": Ellipsis,
             "filter": PyFunc(lambda f, seq: [x for x in list(seq) if self.truth(self.call(f, [x], {}) if f is not None else x)], "filter", True),
-            "map": PyFunc(lambda f, *seqs: [self.call(f, list(xs), {}) for xs in zip(*[list(q) for q in seqs])], "map", True), "iter": PyFunc(iter, "iter"), "next": PyFunc(next, "next"),
+            "map": PyFunc(lambda f, *seqs: [self.call(f, list(xs), {}) for xs in zip(*[list(q) for q in seqs])], "map", True), "iter": PyFunc(self._iter, "iter", True), "next": PyFunc(self._next, "next", True),
             "print": PyFunc(lambda *a, **k: None, "print", True),
             "getattr": PyFunc(self._getattr, "getattr", True),
             "setattr": PyFunc(self._setattr, "setattr", True),
@@ -368,6 +368,28 @@ class Interp:
         if isinstance(v, (Unk, Closure, PyFunc, Bound, ClassRef)):
             return Unk("type")
         return ClassRef(type(v).__name__)
+
+    def _iter(self, v, *sentinel):
+        if sentinel or isinstance(v, (Unk, T)):
+            return Unk("iter")
+        v = self._iterable(v)
+        if isinstance(v, Obj):
+            return Unk("iter")
+        if isinstance(v, GenList):
+            return v                      # an iterator is its own iterator
+        return GenList(list(v))
+
+    def _next(self, it, *default):
+        """next() on an eagerly evaluated generator: the list holds what is still to come."""
+        if not isinstance(it, GenList):
+            if isinstance(it, (list, tuple, dict, str)):
+                raise Raised("TypeError")
+            return Unk("next")
+        if it:
+            return it.pop(0)
+        if default:
+            return default[0]
+        raise Raised("StopIteration")
 
     def _callable(self, v):
         if isinstance(v, (Closure, PyFunc, ClassRef, Bound)):
@@ -1371,6 +1393,15 @@ class Interp:
                 return r if isinstance(op, ast.In) else not r
             if isinstance(a, T) and isinstance(b, T) and isinstance(op, (ast.Eq, ast.NotEq)):
                 return Unk("mv-eq")
+            if isinstance(op, (ast.Eq, ast.NotEq)) and ((isinstance(a, T) and isinstance(b, (int, float, Fraction))) or
+                                                        (isinstance(b, T) and isinstance(a, (int, float, Fraction)))):
+                t, num = (a, b) if isinstance(a, T) else (b, a)
+                if t.is_number():
+                    r = t.number() == num
+                    return r if isinstance(op, ast.Eq) else not r
+                if getattr(self, "t_generic", False):
+                    # a generic operand: an opaque scalar expression is not identically equal to a number
+                    return isinstance(op, ast.NotEq)
             return Unk("compare")
         try:
             return _CMP[type(op)](a, b)
